@@ -53,6 +53,18 @@ type mix struct {
 	Stored bool `json:"stored,omitempty"`
 }
 
+// dupRefs reports whether the integration names one source more than once.
+func dupRefs(ig igSpec) bool {
+	seen := map[string]bool{}
+	for _, r := range ig.Refs {
+		if seen[r.Name] {
+			return true
+		}
+		seen[r.Name] = true
+	}
+	return false
+}
+
 // hyphenNames reports whether a source or integration name of the mix contains '-'.
 func (m mix) hyphenNames() bool {
 	for _, l := range [][]srcSpec{m.FileSrcs, m.DBSrcs} {
@@ -82,6 +94,13 @@ type refResult struct {
 	Tasks   []string // sorted multiset of expected tasks (valid when !Err)
 	Err     bool     // an enabled integration references an unknown source: start-up must fail
 	Lenient bool     // only DISABLED integrations reference unknown sources: an error is tolerated too
+	// Dup: an ENABLED integration (after the merge) names one source more than once. That is still ONE
+	// referenced source: exactly one task for the pair (with the start/stop of either reference, Alts), or a
+	// start-up error; never two tasks. Tasks then holds one task per distinct pair (the first reference).
+	Dup     bool
+	DupOff  bool                // a disabled or file integration names a source twice: a start-up error is tolerated
+	DupSame bool                // every repeated reference repeats the same start/stop
+	Alts    map[string][]string // pair -> acceptable task renderings
 	Pairs   map[string]refSpec
 }
 
@@ -111,9 +130,17 @@ func reference(m mix) refResult {
 		names = append(names, n)
 	}
 	sort.Strings(names)
-	res := refResult{Pairs: map[string]refSpec{}}
+	res := refResult{Pairs: map[string]refSpec{}, Alts: map[string][]string{}, DupSame: true}
+	for _, ig := range m.FileIGs {
+		if dupRefs(ig) {
+			res.DupOff = true // the file is validated as a whole, whatever is enabled
+		}
+	}
 	for _, n := range names {
 		ig := igs[n]
+		if dupRefs(ig) && !ig.Enabled {
+			res.DupOff = true
+		}
 		for _, r := range ig.Refs {
 			s, ok := srcs[r.Name]
 			if !ok {
@@ -134,8 +161,19 @@ func reference(m mix) refResult {
 			if c <= 0 {
 				c = 1
 			}
-			res.Tasks = append(res.Tasks, refTask(s.Name, ig.Name, r.Start, r.Stop, b, c))
-			res.Pairs[s.Name+"/"+ig.Name] = r
+			pair := s.Name + "/" + ig.Name
+			t := refTask(s.Name, ig.Name, r.Start, r.Stop, b, c)
+			if prev, seen := res.Pairs[pair]; seen {
+				res.Dup = true
+				if prev.Start != r.Start || prev.Stop != r.Stop {
+					res.DupSame = false
+				}
+				res.Alts[pair] = append(res.Alts[pair], t)
+				continue
+			}
+			res.Alts[pair] = append(res.Alts[pair], t)
+			res.Tasks = append(res.Tasks, t)
+			res.Pairs[pair] = r
 		}
 	}
 	sort.Strings(res.Tasks)
